@@ -634,6 +634,40 @@ def gen_oracle_init(repo):
             "def oracle_init %s : %s :=\n%s" % (sig, lty2(f.ret), body)), f
 
 
+UPDATE = ["if increment:\n    self.adder[tuple(zip(*location))] += avalue\nelse:\n    self.adder[tuple(zip(*location))] = np.array([copy.deepcopy(avalue) for _ in range(len(location))])"]
+CHAIN = ["d = ADD(units=units, num_candidates=num_candidates, diameter=1, atype=atype)", "d.nodes = np.ones((len(units), 1), dtype=int)", "return d"]
+UPDATE_LEAN = """/-- translated from `ADD.update` (template): NumPy fancy indexing with the list of `(level, node, candidate)` triples — `a[idx] += v` READS the original entries, adds `v` and
+writes them back (an entry listed twice is incremented once), `a[idx] = [v, …]` writes `v` -/
+def add_update {ν : Type} [Inhabited ν] (vadd : ν → ν → ν) (self_adder : (List (List (List ν)))) (location : List (Int × Int × Int)) (avalue : ν) (increment : Bool) :
+    (List (List (List ν))) :=
+  if increment then Np.fancyAdd3 vadd self_adder location avalue else Np.fancySet3 self_adder location avalue
+
+/-- translated from `ADD.construct_chain` (template): `ADD(units, num_candidates, diameter=1, atype)` with every node of the single column existing — the fields
+`(units, root, nodes, child, adder, diameter)` -/
+def construct_chain {ν : Type} (vzero : ν) (units : List Int) (num_candidates : Int) :
+    ((List Int) × Int × (List (List Int)) × (List (List (List Int))) × (List (List (List ν))) × Int) :=
+  (units, (0 : Int), Np.full2L (Np.len1 units) (1 : Int) (1 : Int), Np.full3 (Np.len1 units) (1 : Int) num_candidates (0 : Int),
+   Np.full3 (Np.len1 units) (1 : Int) num_candidates vzero, (1 : Int))
+"""
+
+
+def gen_templates(tree):
+    out = []
+    for name, want in (("update", UPDATE), ("construct_chain", CHAIN)):
+        fn = method(tree, "ADD", name)
+        got = [U(st) for st in fn.body if not (isinstance(st, ast.Expr) and isinstance(st.value, ast.Constant))]
+        if got != want:
+            diff = next((g for g, w in zip(got, want) if g != w), "statement count")
+            raise Untranslatable("ADD.%s does not match the template: %s" % (name, str(diff)[:140]))
+    init = method(tree, "ADD", "__init__")
+    need = ["self.root = 0", "self.nodes = np.zeros((len(self.units), diameter), dtype=int)", "self.child = np.zeros((len(self.units), diameter, self.num_candidates), dtype=int)"]
+    have = [U(st) for st in init.body]
+    for n in need:
+        if n not in have:
+            raise Untranslatable("ADD.__init__ lacks `%s`" % n)
+    return UPDATE_LEAN
+
+
 QUERY = ["unit = self._provenance.units_index[target]",
          "add_with = self._add_with[boundary_with].restrict(unit, 1)",
          "add_without = self._add_without[boundary_without].restrict(unit, 0)",
@@ -693,6 +727,11 @@ def generate(repo=REPO):
                 report[name] = dict(ok=True, notes=f.notes)
             except Untranslatable as e:
                 report[name] = dict(ok=False, why=str(e))
+        try:
+            parts.append(gen_templates(tree))
+            report["ADD.update / construct_chain"] = dict(ok=True)
+        except Untranslatable as e:
+            report["ADD.update / construct_chain"] = dict(ok=False, why=str(e))
         try:
             txt, f = gen_oracle_init(repo)
             parts.append(txt)
